@@ -37,6 +37,43 @@ pub enum Anchored { No, Yes }
 pub struct Input<'h> { pub hay: &'h str, pub anchored: Anchored }
 
 pub uninterp spec fn dfa_npats(d: &DFA) -> nat;
+/// the automaton was built the way the contract below assumes: `MatchKind::All` (every matching pattern is reported, which
+/// is what "highest index among the matching patterns" needs) and no give-up threshold (`minimum_cache_clear_count` unset:
+/// `next_state` never returns `Err(CacheError)`)
+pub uninterp spec fn dfa_std(d: &DFA) -> bool;
+
+// ---- stubs of the builder chain of `MatcherBuilder::new` (by-value builders: the call chain type-checks unchanged) ----
+pub enum MatchKind { All, LeftmostFirst }
+pub struct DfaConfig { pub match_all: bool, pub gives_up: bool }
+pub struct SyntaxConfig { pub p: u8 }
+pub struct NfaConfig { pub p: u8 }
+pub struct Builder { pub cfg: DfaConfig }
+#[derive(Debug)] pub struct BuildError;
+impl DfaConfig {
+    pub fn match_kind(self, kind: MatchKind) -> (c: DfaConfig) ensures c.match_all == (kind is All), c.gives_up == self.gives_up { DfaConfig { match_all: matches!(kind, MatchKind::All), gives_up: self.gives_up } }
+    pub fn minimum_cache_clear_count(self, min: Option<usize>) -> (c: DfaConfig) ensures c.gives_up == (min is Some), c.match_all == self.match_all { DfaConfig { match_all: self.match_all, gives_up: min.is_some() } }
+    pub fn minimum_bytes_per_state(self, min: Option<usize>) -> (c: DfaConfig) ensures c == self { self }
+}
+impl SyntaxConfig {
+    pub fn new() -> SyntaxConfig { SyntaxConfig { p: 0 } }
+    pub fn unicode(self, yes: bool) -> SyntaxConfig { self }
+    pub fn utf8(self, yes: bool) -> SyntaxConfig { self }
+}
+impl NfaConfig {
+    pub fn new() -> NfaConfig { NfaConfig { p: 0 } }
+    pub fn utf8(self, yes: bool) -> NfaConfig { self }
+    pub fn shrink(self, yes: bool) -> NfaConfig { self }
+}
+impl Builder {
+    pub fn configure(self, config: DfaConfig) -> (b: Builder) ensures b.cfg == config { Builder { cfg: config } }
+    pub fn syntax(self, config: SyntaxConfig) -> (b: Builder) ensures b.cfg == self.cfg { self }
+    pub fn thompson(self, config: NfaConfig) -> (b: Builder) ensures b.cfg == self.cfg { self }
+    /// one pattern per regex, in order; the automaton is `dfa_std` exactly when the configuration asked for it
+    #[verifier::external_body]
+    pub fn build_many<P: AsRef<str>>(&self, patterns: &[P]) -> (r: Result<DFA, BuildError>)
+        ensures r matches Ok(d) ==> (dfa_npats(&d) == patterns@.len() && (dfa_std(&d) <==> (self.cfg.match_all && !self.cfg.gives_up)))
+    { unimplemented!() }
+}
 pub uninterp spec fn pat_matches(d: &DFA, p: nat, s: Seq<u8>) -> bool;
 pub open spec fn matches_any(d: &DFA, s: Seq<u8>) -> bool { exists|p: nat| p < dfa_npats(d) && #[trigger] pat_matches(d, p, s) }
 /// the highest index among the patterns matching s (meaningful when some pattern matches)
@@ -70,19 +107,24 @@ impl LazyStateID {
     pub fn is_dead(&self) -> (b: bool) ensures b == sid_dead(*self) { unimplemented!() }
 }
 impl DFA {
+    /// regex-automata's defaults: leftmost-first match kind, no give-up threshold
+    pub fn builder() -> (b: Builder) ensures !b.cfg.match_all, !b.cfg.gives_up { Builder { cfg: DfaConfig { match_all: false, gives_up: false } } }
+    pub fn config() -> (c: DfaConfig) ensures !c.match_all, !c.gives_up { DfaConfig { match_all: false, gives_up: false } }
+
     #[verifier::external_body]
     pub fn create_cache(&self) -> (c: Cache) { unimplemented!() }
 
     /// start of an anchored search; with the default configuration the lazy DFA never gives up (no error)
     #[verifier::external_body]
     pub fn start_state_forward(&self, cache: &mut Cache, input: &Input<'_>) -> (r: Result<LazyStateID, StartError>)
+        requires dfa_std(self),
         ensures r is Ok, valid(final(cache), r->Ok_0), seen(final(cache), r->Ok_0) == Seq::<u8>::empty(), !sid_match(r->Ok_0),
     { unimplemented!() }
 
     /// one byte; may clear the cache: afterwards only the returned id is known to be valid
     #[verifier::external_body]
     pub fn next_state(&self, cache: &mut Cache, current: LazyStateID, input: u8) -> (r: Result<LazyStateID, CacheError>)
-        requires valid(old(cache), current),
+        requires valid(old(cache), current), dfa_std(self),
         ensures r is Ok, valid(final(cache), r->Ok_0),
             seen(final(cache), r->Ok_0) == seen(old(cache), current).push(input),
             reported(final(cache), r->Ok_0) == seen(old(cache), current),
@@ -94,7 +136,7 @@ impl DFA {
     /// end of input: reports a match of everything fed so far
     #[verifier::external_body]
     pub fn next_eoi_state(&self, cache: &mut Cache, current: LazyStateID) -> (r: Result<LazyStateID, CacheError>)
-        requires valid(old(cache), current),
+        requires valid(old(cache), current), dfa_std(self),
         ensures r is Ok, valid(final(cache), r->Ok_0),
             reported(final(cache), r->Ok_0) == seen(old(cache), current),
             sid_match(r->Ok_0) <==> matches_any(self, seen(old(cache), current)),
@@ -177,6 +219,20 @@ pub proof fn lemma_prefix_ext(t: Seq<u8>, i: int, l: int)
 
 // ------------------------------ real code under contract ------------------------------
 //@ item lx struct Token strip_attrs
+
+// R15: the statement of `MatcherBuilder::new` that configures and builds the automaton, extracted verbatim; parameters =
+// its free variables (`regex_vec`, and `enable_unicode` which `new` takes from cfg!(feature = "unicode")).  C08 / C09: the
+// automaton `Matcher::next` steps through is one for which the assumed contract of the lazy DFA holds (all matching patterns
+// reported, never gives up), and it has one pattern per regex.
+/*<fn:MatcherBuilder::new#dfa>*/
+fn build_dfa_for<S: AsRef<str>>(regex_vec: Vec<S>, enable_unicode: bool) -> (res: Result<DFA, BuildError>)
+    ensures res matches Ok(d) ==> (dfa_std(&d) && dfa_npats(&d) == regex_vec@.len()),   // @C08 @C09
+{
+//@ stmt lx MatcherBuilder::new let dfa #1 MatcherBuilder::new#dfa
+    Ok(dfa)
+}
+/*</fn:MatcherBuilder::new#dfa>*/
+
 //@ item lx struct MatcherBuilder pub_fields
 //@ item lx impl MatcherBuilder only=matcher
 //@ item lx struct Matcher pub_fields
